@@ -217,6 +217,34 @@ type world struct {
 
 	expTimeout time.Duration
 	sawGzip    bool
+	concurrent bool             // two export calls in flight at once: attempts are attributed by payload
+	inflight   map[int]*callRec // concurrent mode
+}
+
+// callOf finds which call a payload belongs to (every call's telemetry carries the marker "call<i>").
+func callOf(payload []byte) int {
+	for i := 0; i < 4; i++ {
+		if bytes.Contains(payload, []byte(fmt.Sprintf("call%d", i))) {
+			return i
+		}
+	}
+	return -1
+}
+
+// arriveCall registers an attempt of a specific call (concurrent mode).
+func (w *world) arriveCall(call int, hash string) outcome {
+	w.mu.Lock()
+	defer w.mu.Unlock()
+	c := w.inflight[call]
+	if c == nil {
+		return outcome{status: 200, code: codes.OK, retryAfter: -1, retryInfo: -1}
+	}
+	i := len(c.attempts)
+	c.attempts = append(c.attempts, attempt{call: c.idx, at: w.now(), hash: hash, idx: i})
+	if i < len(c.script) {
+		return c.script[i]
+	}
+	return outcome{status: 200, code: codes.OK, retryAfter: -1, retryInfo: -1}
 }
 
 // effective turns a scripted outcome into what the client can observe: the HTTP exporters apply their
@@ -269,6 +297,9 @@ type httpCollector struct {
 }
 
 func (h *httpCollector) dial(ctx context.Context, _, _ string) (net.Conn, error) {
+	if h.w.concurrent {
+		return h.l.connect(ctx) // the attempt is registered by the handler, once the payload says whose it is
+	}
 	oc, _ := h.w.arrive("")
 	if oc.dialFail {
 		return nil, tempErr{}
@@ -291,10 +322,15 @@ func (h *httpCollector) ServeHTTP(rw http.ResponseWriter, req *http.Request) {
 			}
 		}
 	}
-	h.w.setHash(fmt.Sprintf("%x", sha256.Sum256(body))[:16])
-	h.lastMu.Lock()
-	oc := h.last
-	h.lastMu.Unlock()
+	var oc outcome
+	if h.w.concurrent {
+		oc = h.w.arriveCall(callOf(body), fmt.Sprintf("%x", sha256.Sum256(body))[:16])
+	} else {
+		h.w.setHash(fmt.Sprintf("%x", sha256.Sum256(body))[:16])
+		h.lastMu.Lock()
+		oc = h.last
+		h.lastMu.Unlock()
+	}
 	if oc.latency > 0 {
 		time.Sleep(oc.latency)
 	}
@@ -329,7 +365,12 @@ type grpcCollector struct {
 
 func (g *grpcCollector) respond(m proto.Message) (outcome, error) {
 	b, _ := proto.MarshalOptions{Deterministic: true}.Marshal(m)
-	oc, _ := g.w.arrive(fmt.Sprintf("%x", sha256.Sum256(b))[:16])
+	var oc outcome
+	if g.w.concurrent {
+		oc = g.w.arriveCall(callOf(b), fmt.Sprintf("%x", sha256.Sum256(b))[:16])
+	} else {
+		oc, _ = g.w.arrive(fmt.Sprintf("%x", sha256.Sum256(b))[:16])
+	}
 	if oc.latency > 0 {
 		time.Sleep(oc.latency)
 	}
@@ -442,9 +483,21 @@ func (engine) Body(r *simdrv.Run) {
 		// what follows the script is a success, sometimes a partial success
 		w.calls = append(w.calls, rec)
 	}
+	w.concurrent = nCalls == 2 && r.Cfg(3) == 0
+	if w.concurrent {
+		w.inflight = map[int]*callRec{}
+		for _, c := range w.calls {
+			for i := range c.script {
+				if c.script[i].dialFail { // a dial cannot be attributed to one of two calls in flight
+					c.script[i] = outcome{status: 503, retryAfter: -1, retryInfo: -1}
+				}
+			}
+		}
+	}
 	ctxTimeout := []time.Duration{0, 0, 150 * time.Millisecond, 4 * time.Second, 20 * time.Second}[r.Cfg(5)]
 	shutdownAt := []time.Duration{-1, -1, -1, 0, 50 * time.Millisecond, 999 * time.Millisecond, time.Second, 1001 * time.Millisecond, 6 * time.Second}[r.Cfg(9)]
 	r.Res.Config["gzip"] = useGzip
+	r.Res.Config["concurrent_calls"] = w.concurrent
 	r.Res.Config["exporter"] = kind
 	r.Res.Config["retry"] = fmt.Sprintf("%+v", rc)
 	r.Res.Config["exporter_timeout"] = expTimeout.String()
@@ -475,7 +528,7 @@ func (engine) Body(r *simdrv.Run) {
 	var err error
 	res := resource.NewSchemaless(attribute.String("service.name", "sim"))
 	mkMetrics := func(call int) *metricdata.ResourceMetrics {
-		return &metricdata.ResourceMetrics{Resource: res, ScopeMetrics: []metricdata.ScopeMetrics{{Metrics: []metricdata.Metrics{{Name: fmt.Sprintf("m%d", call),
+		return &metricdata.ResourceMetrics{Resource: res, ScopeMetrics: []metricdata.ScopeMetrics{{Metrics: []metricdata.Metrics{{Name: fmt.Sprintf("call%d.metric", call),
 			Data: metricdata.Sum[int64]{Temporality: metricdata.CumulativeTemporality, IsMonotonic: true, DataPoints: []metricdata.DataPoint[int64]{{Value: int64(call) + 1}}}}}}}}
 	}
 	mkLogs := func(call int) []sdklog.Record {
@@ -568,37 +621,56 @@ func (engine) Body(r *simdrv.Run) {
 		return
 	}
 
-	sim.Spawn("exporter", func() {
-		for _, c := range w.calls {
-			simrt.Yield(simdrv.PtOp)
-			ctx, cancel := context.Background(), context.CancelFunc(func() {})
-			// gRPC exporters bound the whole export by their timeout; HTTP exporters apply it per attempt
-			c.deadline = 1000 * time.Hour
-			if w.isGRPC {
-				c.deadline = expTimeout
-			}
-			if ctxTimeout > 0 {
-				ctx, cancel = context.WithTimeout(ctx, ctxTimeout)
-				if ctxTimeout < c.deadline {
-					c.deadline = ctxTimeout
-				}
-			}
-			w.mu.Lock()
-			w.cur = c
-			c.start = w.now()
-			w.mu.Unlock()
-			r.Log("%d export-invoke call=%d t=%v", sim.Stamp(), c.idx, c.start)
-			e := ex.export(ctx, c.idx)
-			simrt.Woke(simdrv.PtOp)
-			w.mu.Lock()
-			c.err, c.end, c.returned = e, w.now(), true
-			w.cur = nil
-			w.mu.Unlock()
-			cancel()
-			r.Log("%d export-return call=%d t=%v err=%v attempts=%d", sim.Stamp(), c.idx, c.end, e != nil, len(c.attempts))
-			r.Res.Ops++
+	doCall := func(c *callRec) {
+		simrt.Yield(simdrv.PtOp)
+		ctx, cancel := context.Background(), context.CancelFunc(func() {})
+		// gRPC exporters bound the whole export by their timeout; HTTP exporters apply it per attempt
+		c.deadline = 1000 * time.Hour
+		if w.isGRPC {
+			c.deadline = expTimeout
 		}
-	})
+		if ctxTimeout > 0 {
+			ctx, cancel = context.WithTimeout(ctx, ctxTimeout)
+			if ctxTimeout < c.deadline {
+				c.deadline = ctxTimeout
+			}
+		}
+		w.mu.Lock()
+		if w.concurrent {
+			w.inflight[c.idx] = c
+		} else {
+			w.cur = c
+		}
+		c.start = w.now()
+		w.mu.Unlock()
+		r.Log("%d export-invoke call=%d t=%v", sim.Stamp(), c.idx, c.start)
+		e := ex.export(ctx, c.idx)
+		simrt.Woke(simdrv.PtOp)
+		w.mu.Lock()
+		c.err, c.end, c.returned = e, w.now(), true
+		if w.concurrent {
+			delete(w.inflight, c.idx)
+		} else {
+			w.cur = nil
+		}
+		w.mu.Unlock()
+		cancel()
+		r.Log("%d export-return call=%d t=%v err=%v attempts=%d", sim.Stamp(), c.idx, c.end, e != nil, len(c.attempts))
+		r.Res.Ops++
+	}
+	if w.concurrent {
+		for _, c := range w.calls {
+			c := c
+			sim.Spawn(fmt.Sprintf("exporter%d", c.idx), func() { doCall(c) })
+		}
+		r.Fault("concurrent-export-calls")
+	} else {
+		sim.Spawn("exporter", func() {
+			for _, c := range w.calls {
+				doCall(c)
+			}
+		})
+	}
 	if shutdownAt >= 0 {
 		sim.Spawn("stopper", func() {
 			if shutdownAt > 0 {
@@ -671,7 +743,11 @@ func (w *world) oracle(kind string, rc retryCfg) {
 		}
 		// the instant after which nothing may start / the call must have returned
 		deadlineAt := c.start + c.deadline
-		interrupted := c.end >= deadlineAt
+		if w.concurrent && n > 0 && c.attempts[0].at > c.start {
+			// serialised behind the other call: the exporter's own timeout starts with its first attempt
+			deadlineAt = c.attempts[0].at + c.deadline
+		}
+		interrupted := c.end >= c.start+c.deadline // the earliest instant at which any of its deadlines can have fired
 		if w.sdCalled && w.sdInv <= c.end {
 			interrupted = true
 		}
@@ -747,7 +823,7 @@ func (w *world) oracle(kind string, rc retryCfg) {
 					r.Violate(prop, "failure-reported-as-success", "failure-reported-as-success/"+proto, "%s: the last attempt %d ended with %s but the call returned nil", where, n-1, last)
 				}
 				// (8) gave up although the budget allowed another attempt
-				if last.retryable(w.isGRPC) && rc.enabled && !interrupted {
+				if last.retryable(w.isGRPC) && rc.enabled && !interrupted && !w.concurrent {
 					respAt := c.attempts[n-1].at + last.latency
 					elapsed := respAt - c.start
 					need := max(last.serverDelay(w.isGRPC), 2*rc.max)
@@ -764,6 +840,11 @@ func (w *world) oracle(kind string, rc retryCfg) {
 		var maxLat time.Duration
 		for i := 0; i < n; i++ {
 			maxLat = max(maxLat, outcomeOf(i).latency)
+		}
+		// (with two calls in flight the metric exporters serialise exports on a mutex, so a call's own
+		// clock starts when the other one is done: the time bounds are only checked for single calls)
+		if w.concurrent {
+			continue
 		}
 		if c.end > deadlineAt+time.Millisecond {
 			r.Violate(prop, "returned-late", "returned-late/deadline/"+proto, "%s returned at %v, after its deadline %v", where, c.end, deadlineAt)
